@@ -4,6 +4,25 @@ from python_minifier.rename.binding import BuiltinBinding, NameBinding
 from python_minifier.rename.util import builtins, get_global_namespace, get_nonlocal_namespace
 
 
+def is_only_declared(binding):
+    """
+    Is a module level binding only the result of global statements, with nothing that assigns the name
+
+    :param binding: The binding to check
+    :type binding: :class:`NameBinding`
+    :rtype: bool
+    """
+
+    for node in binding.references:
+        if isinstance(node, ast.Global):
+            continue
+        if isinstance(node, ast.Name) and isinstance(node.ctx, ast.Load):
+            continue
+        return False
+
+    return True
+
+
 def get_binding(name, namespace):
     if name in namespace.global_names and not isinstance(namespace, ast.Module):
         return get_binding(name, get_global_namespace(namespace))
@@ -12,6 +31,10 @@ def get_binding(name, namespace):
 
     for binding in namespace.bindings:
         if binding.name == name:
+            if isinstance(namespace, ast.Module) and name in ['exec', 'eval', 'locals', 'globals', 'vars'] and is_only_declared(binding):
+                # A global statement alone doesn't bind the name, so this is still the builtin
+                namespace.tainted = True
+
             return binding
 
     if not isinstance(namespace, ast.Module):
